@@ -1,5 +1,7 @@
 import CJ.Lemmas.Ingress
+import CJ.Lemmas.Responder
 import CJ.Gen.C11Tables
+import CJ.Gen.C11Index
 import CJ.Props.C14
 /-!
 # C11 — no externally supplied bytes can crash a station or registrar process
@@ -90,6 +92,87 @@ theorem readName_result_valid (buf : Bytes) (pos : Nat) (n : Name) (e : Nat) (h 
               · exact ih _ _ _ _ h
           · cases h
   exact key _ _ _ _ _ h
+
+/-! ## the DNS responder: one datagram through the handler goroutine of `RecvAndRespond`
+
+`handleDatagram` (CJ/Model/Responder.lean) is the body of the `go func() { … }()` from the bytes
+`ReadFrom` delivered to the bytes given to `WriteTo`: the parser whose error is only logged, `responseFor`,
+`RemoveRequestFormat`, `craftResponse` (Noise and the callback: a parameter), `AddResponseFormat`,
+`dnsRespToUDPResp` with `resp.Question[0]` as the partial operation it is in Go, the size limit with its
+second `dnsRespToUDPResp`. The goroutine has no `recover`: a panic anywhere on this path ends the
+registrar. -/
+
+/-- **no datagram can panic the handler**, whatever base32 decoder, Noise implementation and callback
+are plugged in, for every base domain and size limit -/
+theorem responder_datagram_no_panic (dom : Name) (maxUDP : Nat) (dec : Bytes → Option Bytes)
+    (craft : Bytes → Option Bytes) (buf : Bytes) : (handleDatagram dom maxUDP dec craft buf).Safe :=
+  handleDatagram_safe dom maxUDP dec craft buf
+
+/-- the response `responseFor` returns echoes the query's questions (any number of them), has no answer
+and no authority records, and at most its own OPT RR -/
+theorem responder_response_sections (q : Message) (dom : Name) (maxUDP : Nat) (dec : Bytes → Option Bytes)
+    (resp : Message) (pl : Option Bytes) (h : responseFor q dom maxUDP dec = some (resp, pl)) :
+    resp.question = q.question ∧ resp.answer = [] ∧ resp.authority = [] ∧
+      (resp.additional = [] ∨ ∃ ttl, resp.additional = [optRR ttl]) :=
+  responseFor_question h
+
+/-- a payload (the answer kind) comes only out of a query with exactly one question … -/
+theorem responder_payload_one_question (q : Message) (dom : Name) (maxUDP : Nat) (dec : Bytes → Option Bytes)
+    (resp : Message) (pl : Bytes) (h : responseFor q dom maxUDP dec = some (resp, some pl)) :
+    ∃ qu, q.question = [qu] ∧ resp.question = [qu] :=
+  responseFor_payload h
+
+/-- … but RCODE 0 does **not** mean a payload: it is also what the BADVERS answer carries in its four
+header bits, and that answer is returned before the questions are counted -/
+theorem responder_noerror_kinds (q : Message) (dom : Name) (maxUDP : Nat) (dec : Bytes → Option Bytes)
+    (resp : Message) (pl : Option Bytes) (h : responseFor q dom maxUDP dec = some (resp, pl))
+    (hr : resp.flags &&& 0x000f = 0) :
+    pl.isSome = true ∨ ∃ add, scanOPT q.additional [] 0 = .badVers add :=
+  responseFor_noerror h hr
+
+/-- `dnsRespToUDPResp`: the branch that indexes `resp.Question[0]` is entered exactly when RCODE is 0 and
+there is exactly one question, and there the index is in range; otherwise the response goes out as it is -/
+theorem responder_answer_branch (resp : Message) (payload : Bytes) :
+    (resp.flags &&& 0x000f = 0 ∧ resp.question.length = 1 →
+      ∃ q, resp.question = [q] ∧ udpResponseGo resp payload =
+        wireFormat { resp with answer := [⟨q.name, q.qtype, q.qclass, 60, encodeTXT payload⟩] }) ∧
+    (¬ (resp.flags &&& 0x000f = 0 ∧ resp.question.length = 1) → udpResponseGo resp payload = wireFormat resp) := by
+  constructor
+  · intro h
+    obtain ⟨q, hq, hf⟩ := first_eq_of_length_one h.2
+    refine ⟨q, hq, ?_⟩
+    unfold udpResponseGo udpResponseWith
+    rw [if_pos ⟨h.1, Or.inr h.2⟩, hf]
+    rfl
+  · intro h
+    unfold udpResponseGo udpResponseWith
+    have : ¬ (resp.flags &&& 0x000f = 0 ∧ (true = false ∨ resp.question.length = 1)) := by
+      intro hc
+      rcases hc.2 with h' | h'
+      · cases h'
+      · exact h ⟨hc.1, h'⟩
+    rw [if_neg this]
+
+/-- the partial index never fails behind the full guard: the model with Go's indexing is the total
+function the C15 theorems are about -/
+theorem responder_answer_index_safe (resp : Message) (payload : Bytes) :
+    udpResponseGo resp payload = udpResponse resp payload := udpResponseGo_eq resp payload
+
+/-- the 23-byte query with no question and one OPT RR of EDNS version 1 -/
+def badversNoQuestion : Bytes :=
+  [0x12, 0x34, 0, 0, 0, 0, 0, 0, 0, 0, 0, 1,  0, 0, 0x29, 0x10, 0, 0, 1, 0, 0, 0, 0]
+
+/-- **the second half of the guard is needed**: for that query `responseFor` returns RCODE 0 with an empty
+question list; `dnsRespToUDPResp` with the guard reduced to the RCODE test panics on it (index out of
+range), and so does the whole handler — while the code under test answers it -/
+theorem responder_question_count_guard_needed :
+    (∃ resp, responseFor (lenientParse badversNoQuestion) [[0x74]] 1232 (fun _ => none) = some (resp, none) ∧
+      resp.flags &&& 0x000f = 0 ∧ resp.question = [] ∧
+      udpResponseWith false resp [] = .panic "index out of range") ∧
+    handleDatagramWith false [[0x74]] 1232 (fun _ => none) (fun _ => none) badversNoQuestion =
+      .panic "index out of range" ∧
+    (handleDatagram [[0x74]] 1232 (fun _ => none) (fun _ => none) badversNoQuestion).isOk = true := by
+  refine ⟨⟨⟨0x1234, 0x8000, [], [], [], [optRR 0x01000000]⟩, ?_, ?_, ?_, ?_⟩, ?_, ?_⟩ <;> decide
 
 /-! ## first-flight bytes on phantom connections -/
 
@@ -420,6 +503,29 @@ theorem star_derefs_nil_safe :
 /-- the scan is not empty-handed: it read the entry packages and found sites of each kind -/
 theorem extractor_saw_the_code : 40 ≤ CJ.Gen.C11.scannedFiles ∧ 10 ≤ CJ.Gen.C11.derefSites.length ∧
     5 ≤ CJ.Gen.C11.aliasSites.length ∧ 3 ≤ CJ.Gen.C11.starSites.length := by decide
+
+/-! ## constant-index expressions of the DNS registrar packages (regenerated table)
+
+`CJ/Gen/C11Index.lean` lists every `x[k]` with a literal `k` in the packages a DNS datagram passes through
+and the length guard the extractor recognised for it (see go/harness/C11/zz_verif_c11_idxgen_test.go for the
+four shapes; the analysis is pinned by fixtures). The slices are filled by whoever sends the datagram. -/
+
+/-- every constant index in those packages sits behind a length guard: `resp.Question[0]` in
+`dnsRespToUDPResp` behind `len(resp.Question) == 1` in the enclosing condition (the guard
+`responder_question_count_guard_needed` shows to be necessary), `query.Question[0]` in `responseFor` behind
+the FORMERR return, `resp.Answer[0]` of the requester behind its count check, the first byte of a frame and
+of a TXT string behind the length tests, `Additional[0]` / `Answer[0]` of the responder behind the statement
+that puts an element there -/
+theorem dns_index_sites_guarded : ∀ s ∈ CJ.Gen.C11Index.indexSites, s.guard ≠ "" := by decide
+
+/-- the scan is not empty-handed: it read the packages and found the sites the model's partial operations
+stand for -/
+theorem dns_index_extractor_saw_the_code : 12 ≤ CJ.Gen.C11Index.scannedFiles ∧
+    (∃ s ∈ CJ.Gen.C11Index.indexSites, s.fn = "dnsRespToUDPResp" ∧ s.expr = "resp.Question[0]" ∧ s.guard = "enclosing-if") ∧
+    (∃ s ∈ CJ.Gen.C11Index.indexSites, s.fn = "responseFor" ∧ s.expr = "query.Question[0]" ∧ s.guard = "dominating-return") ∧
+    (∃ s ∈ CJ.Gen.C11Index.indexSites, s.fn = "RemoveRequestFormat" ∧ s.expr = "p[0]") ∧
+    (∃ s ∈ CJ.Gen.C11Index.indexSites, s.fn = "DecodeRDataTXT" ∧ s.expr = "p[0]") ∧
+    (∃ s ∈ CJ.Gen.C11Index.indexSites, s.fn = "dnsResponsePayload" ∧ s.expr = "resp.Answer[0]") := by decide
 
 /-! ## non-vacuity -/
 
